@@ -56,6 +56,13 @@ def varElemLen : Bytes → Option Nat
   | [] => none
   | n :: rest => if rest.length ≥ n then some (n + 1) else none
 
+/-- harness' element type for the oversize probe (`new big`): a 4-byte big-endian length, then
+that many bytes -/
+def bigElemLen (b : Bytes) : Option Nat :=
+  if b.length < 4 then none else
+  let n := ofBE (b.take 4)
+  if b.length - 4 ≥ n then some (n + 4) else none
+
 /-- the unpruned reference -/
 structure Ref where
   hashes : List Bytes := []
@@ -76,6 +83,8 @@ structure St where
   lastDisk : Option String := none
   /-- non-prunable backend (`prunable == false`) -/
   np : Bool := false
+  /-- element reader of kind `big` (4-byte length prefix) instead of the 1-byte one -/
+  big : Bool := false
   /-- `LeafSet::snapshot` per header tag: the bitmap written to the side file, and the reference unspent set then -/
   snaps : List (String × Bitmap × List Nat) := []
 
@@ -143,7 +152,7 @@ def neededPos (size : Nat) (unspent : List Nat) : List Nat :=
 /-- the non-prunable backend (`new npfixed` / `new npvar`): same operation names, answered by the
 `np*` functions of `Model/StoreExt.lean`; the reference never spends a leaf -/
 def handleNp (st : St) (args : List String) (impl : String) : St × Verdict :=
-  let el := varElemLen
+  let el := if st.big then bigElemLen else varElemLen
   match args with
   | ["push", e] => match parseHex e with
     | none => (st, .unknown)
@@ -235,15 +244,15 @@ def handleSizeFile (st : St) (hexs : String) (impl : String) : St × Verdict :=
   | _, _ => (st, .unknown)
 
 def handle (st : St) (args : List String) (impl : String) : St × Verdict :=
-  let el := varElemLen
+  let el := if st.big then bigElemLen else varElemLen
   -- `@n` tokens only number the observation inside the run
   let args := args.filter (fun a => !a.startsWith "@")
   if args.head? == some "sizefile" then handleSizeFile st (args.getD 1 "") impl else
   if st.np && args.head? != some "new" then handleNp st args impl else
   match args with
   | ["new", kind] =>
-    let df : DFile := if kind = "var" || kind = "npvar" then .var {} else .fixed {}
-    ({ pm := { b := { dataFile := df }, size := 0 }, np := kind.startsWith "np" }, cmpModel "ok" impl)
+    let df : DFile := if kind = "var" || kind = "npvar" || kind = "big" then .var {} else .fixed {}
+    ({ pm := { b := { dataFile := df }, size := 0 }, np := kind.startsWith "np", big := kind = "big" }, cmpModel "ok" impl)
   -- the import path of state sync
   | ["pushpruned", p, h, es] => match nat? p, parseHex h, parseHexList es with
     | some p, some h, some es =>
@@ -362,6 +371,21 @@ def handle (st : St) (args : List String) (impl : String) : St × Verdict :=
   | ["xsizes"] => (st, cmpModel s!"{st.pm.b.hashSize} {st.pm.b.dataSize}" impl)
   | ["xdata", p] => match nat? p with
     | some p => (st, cmpModel (showOptHex (st.pm.getData el p)) impl)
+    | none => (st, .unknown)
+  -- oversize probe: elements are runs of one byte `<len>x<byte>`; answers `none` | `<len>:<blake2b of the encoding>`
+  | ["xpushrun", len, byte] => match nat? len, nat? byte with
+    | some len, some byte =>
+      let e := beBytes 4 len ++ List.replicate len byte
+      match st.pm.push realHF e with
+      | some pm => ({ st with pm := pm }, cmpModel (toString pm.size) impl)
+      | none => (st, cmpModel "err" impl)
+    | _, _ => (st, .unknown)
+  | ["xdatalen", p] => match nat? p with
+    | some p =>
+      let model := match st.pm.getData el p with
+        | some d => s!"{d.length}:{toHex (h256 d)}"
+        | none => "none"
+      (st, cmpModel model impl)
     | none => (st, .unknown)
   | ["xroot"] => (st, cmpModel (showRoot (st.pm.root realHF)) impl)
   | ["xleaves"] => (st, cmpModel (showNatList st.pm.b.leafPosIter) impl)
